@@ -313,6 +313,31 @@ def run(prop_id, tier='quick', seed=1, replay=None):
                             (p, kd, ky) and k.get('status') == 'known':
                         known_lines[(p, kd, ky)] = k
                         total.count(f'known_finding:{kd}', c)
+    # 4. coverage-guided campaign (atheris/libFuzzer) where the module asks
+    fuzz_info = None
+    fz = getattr(mod, 'FUZZ', {}).get(tier)
+    if fz and os.environ.get('PKV_NO_FUZZ') != '1':
+        from . import fuzz as _fuzz
+        fstats, fviols, fuzz_info = _fuzz.campaign(
+            prop_id, fz.get('procs', NSHARDS), fz['runs'], seed, fz['wall'],
+            tier)
+        execs = 0
+        for fs in fstats:
+            execs += fs['evaluations']
+            total.merge(fs)
+            for sig, c in fs.get('known_hits', []):
+                p, kd, ky = sig
+                for k in known:
+                    if (k['property'], k['kind'], k.get('key', '')) == \
+                            (p, kd, ky) and k.get('status') == 'known':
+                        known_lines[(p, kd, ky)] = k
+                        total.count(f'known_finding:{kd}', c)
+        fuzz_info['executions'] = execs
+        for vd, case in fviols:
+            v = V(vd['property'], vd['kind'], vd['key'], vd['message'])
+            handle([v], case, None)
+        if fuzz_info.get('errors'):
+            harness_errors.extend(fuzz_info['errors'])
     # always demonstrate listed known findings of this property
     if hasattr(mod, 'demonstrate_known'):
         for k in known:
@@ -350,6 +375,8 @@ def run(prop_id, tier='quick', seed=1, replay=None):
         shards=shard_info,
         exhaustive=bool(extra_info.get('exhaustive', False)),
     )
+    if fuzz_info is not None:
+        cov['coverage_guided'] = fuzz_info
     for k, val in extra_info.items():
         if k not in ('evaluations', 'distinct_nontrivial', 'samples',
                      'exhaustive'):
